@@ -164,6 +164,31 @@ def _rawnnfa_reqs(g, n, mks):
     return out
 
 
+def _many_dup_packed(g, n, cf, mks=("ll", "lf", "ll")):
+    """21..60 patterns of mixed lengths for which the builder picks the packed prefilter, several of them supplied two
+    or three times at scattered positions (a confirming prefilter must report the copy supplied FIRST: the packed
+    searcher's own ordering of equal-length patterns decides), on long (Teddy) and short (Rabin-Karp) haystacks"""
+    out = []
+    for _ in range(n):
+        k = g.rng.choice([21, 22, 25, 30, 40, 60])
+        seen, pats = set(), []
+        while len(pats) < k:
+            w = g.word(b"abcdefghijklmnop", 2, 6)
+            if w not in seen:
+                seen.add(w); pats.append(w)
+        dups = g.rng.sample(pats, g.rng.randint(2, 6))
+        for d in dups:
+            for _ in range(g.rng.choice([1, 1, 2])):
+                pats.insert(g.rng.randrange(len(pats) + 1), d)
+        mk = g.rng.choice(list(mks))
+        for _ in range(2):
+            picks = [g.rng.choice(dups) for _ in range(3)]
+            pad = b"z" * g.rng.choice([0, 2, 19, 40])
+            hay = pad + pad.join(picks) + b"z" * g.rng.choice([0, 1, 30])
+            out.append(fmt_req(g.rng.choice(["find", "iter", "iter"]), {"mk": mk, "pats": hxlist(pats), "hay": hx(hay), "cfgs": cfgs(cf)}))
+    return out
+
+
 def gen_C01(tier, seed):
     g = Gen(seed)
     q = tier == "quick"
@@ -192,6 +217,7 @@ def gen_C01(tier, seed):
             hay = pre_hay(g, pats)
             reqs.append(fmt_req(g.rng.choice(["find", "iter"]), {"mk": mk, "pats": hxlist(pats), "hay": hx(hay),
                                                                 "cfgs": cfgs(CFG_PRE + ["auto.d.1.1.b"])}))
+    reqs += _many_dup_packed(g, qn(q, 30, 300), CFG_PRE + ["auto.d.1.1.b"])
     certs = _fixed_certs(["lf", "ll"], CORPUS_LISTS) + _certs(g, qn(q, 150, 600), ["lf", "ll"])
     return {"reqs": reqs, "certs": certs, "first": True, "gen": g, "modes": "0", "l1c": True, "needs_cpu": True}
 
@@ -607,6 +633,18 @@ def gen_C12(tier, seed):
             kv["dstcap"] = g.rng.choice([0, 1, len(hay), len(hay) + 1, len(hay) + 7, 64, 300])
         kv["cfgs"] = cfgs(cf)
         reqs.append(fmt_req("replace", kv))
+    # replacement through the default prefilters (the iterator the splicing consumes is the prefiltered one): lists for which
+    # the packed prefilter is built, haystack lengths around the vector widths, one occurrence near the end; dense haystacks
+    reqs += _packed_tail_sweep(g, qn(q, 40, 400), ["replace"], ["auto.d.1.1.u", "tc.d.1.1.b", "tdfa.d.1.1.u", "nc.d.1.1.b"],
+                               extra=lambda ps: {"variant": g.rng.choice(["bytes", "withbytes"]),
+                                                 "repl": hxlist([b"<%d>" % i for i in range(len(ps))])})
+    for _ in range(qn(q, 40, 400)):
+        pats = [p for p in pre_pats(g) if p] or [b"ab"]
+        hay = pre_hay(g, pats)
+        reqs.append(fmt_req("replace", {"mk": g.rng.choice(["std", "lf", "ll"]), "pats": hxlist(pats), "hay": hx(hay),
+                                        "variant": g.rng.choice(["bytes", "withbytes"]),
+                                        "repl": hxlist([b"<%d>" % i for i in range(len(pats))]),
+                                        "cfgs": cfgs(["auto.d.1.1.u", "tc.d.1.1.b", "tdfa.d.1.1.u", "nc.d.1.1.b"])}))
     # wrong replacement table length: documented panic
     reqs.append(fmt_req("replace", {"mk": "std", "pats": hxlist([b"a", b"b"]), "hay": hx(b"ab"), "variant": "bytes",
                                     "repl": hxlist([b"x"]), "cfgs": cfgs(cf)}))
@@ -678,6 +716,18 @@ def pre_hay(g, pats, fold=False):
     """haystacks with candidate bytes at every offset relative to true matches, long enough for vector code"""
     n = g.rng.choice([0, 3, 15, 16, 17, 31, 32, 33, 48, 64, 70, 130])
     alpha, foreign = g.alphabet(pats, fold)
+    if g.rng.random() < 0.25:
+        # dense: many complete occurrences one after the other with short, varied gaps (a resumed search starts the
+        # prefilter at every kind of offset > 0; candidate bytes of OTHER patterns sit right before true matches)
+        units = []
+        for _ in range(g.rng.randint(2, 7)):
+            units.append(g.rng.choice(pats))
+            units.append(g.rng.choice([b"", bytes([foreign]), bytes([foreign]) * g.rng.randint(2, 9), alpha[:1],
+                                       g.rng.choice(pats)[:1], g.rng.choice(pats)[-1:], bytes([foreign]) * 20]))
+        out = bytearray(g.rng.choice([b"", bytes([foreign]) * g.rng.randint(1, 5)]) + b"".join(units))
+        if fold:
+            out = bytearray((b ^ 0x20) if (65 <= b <= 90 or 97 <= b <= 122) and g.rng.random() < 0.5 else b for b in out)
+        return bytes(out)
     filler = bytes([foreign]) if g.rng.random() < 0.6 else alpha[:1]
     out = bytearray(filler * n)
     for _ in range(g.rng.randint(0, 4)):
@@ -754,6 +804,31 @@ def _resume_after_none(g, n, cf):
     return out
 
 
+def _packed_tail_sweep(g, n, ops, cf, extra=None):
+    """packed-eligible lists (shortest pattern 1..4 bytes = each Teddy fingerprint length), haystack lengths k*V + r around
+    the vector widths (16 / 32) and ONE occurrence at a chosen distance from the END (the final, overlapped window and
+    its carried lanes) or from the start"""
+    out = []
+    for _ in range(n):
+        minlen = g.rng.choice([1, 2, 3, 4, 4])
+        pats = [p for p in packed_eligible(g, minlen) if p]
+        alpha, foreign = g.alphabet(pats)
+        V = g.rng.choice([16, 32])
+        L = g.rng.choice([1, 2, 3]) * V + g.rng.choice([0, 1, 2, 3, 4, 5, V - 1, V - 2]) + g.rng.choice([0, V])
+        p0 = g.rng.choice(pats)
+        back = g.rng.choice([len(p0), len(p0) + 1, V - 1, V, V + 1, V + 2, V + 3, V + 4, 2 * V, 2 * V + 1])
+        pos = L - back if g.rng.random() < 0.8 else g.rng.choice([0, 1, 2, V - 1, V, V + 1])
+        if pos < 0 or pos + len(p0) > L:
+            continue
+        hay = bytearray(bytes([foreign]) * L)
+        hay[pos:pos + len(p0)] = p0
+        kv = {"mk": g.rng.choice(["lf", "ll"]), "pats": hxlist(pats), "hay": hx(bytes(hay)), "cfgs": cfgs(cf)}
+        if extra:
+            kv.update(extra(pats))
+        out.append(fmt_req(g.rng.choice(ops), kv))
+    return out
+
+
 def gen_C05(tier, seed):
     """prefilter on (pf=1) against the model, which has no prefilter: transparency; plus the same request with pf=0"""
     g = Gen(seed)
@@ -827,6 +902,51 @@ def gen_C05(tier, seed):
             mk = g.rng.choice(["lf", "ll"])
             reqs.append(fmt_req(g.rng.choice(["find", "iter", "iter"]), {"mk": mk, "pats": hxlist(pats), "hay": hx(hay), "cfgs": cfgs(cf)}))
             reqs.append(fmt_req("pre", {"mk": mk, "pats": hxlist(pats), "hay": hx(hay), "s": 0, "e": len(hay), "cfgs": cfgs(["nc.d.1.1.b"])}))
+    # bytes at the two ENDS of the byte range as the rare / start bytes a prefilter is built from (loops over 0..=255,
+    # byte sets, rank tables): patterns made of 0xFF / 0x00 / 0xFE / 0x80 and very common letters, next to a pattern that
+    # contributes an ordinary rare byte
+    for _ in range(qn(q, 60, 600)):
+        edge = g.rng.choice([0xFF, 0xFF, 0x00, 0xFE, 0x80, 0x01])
+        e1 = bytes([edge])
+        first = g.rng.choice([e1 * 2, e1 + b"e", e1 + b" t", e1 * 3, b"e" + e1, e1])
+        second = g.rng.choice([b"zq", b"qj", b"e" + bytes([g.rng.choice(b"zqj~")]), bytes([g.rng.choice(b"zqj")]) + b"e", bytes([edge ^ 1]) + b"e"])
+        pats = [first, second] + ([g.rng.choice([b"te", b"at" + e1, b"z" + e1])] if g.rng.random() < 0.3 else [])
+        g.rng.shuffle(pats)
+        filler = g.rng.choice([b"e", b" ", b"x"])
+        units = [g.rng.choice(pats) for _ in range(g.rng.randint(1, 4))]
+        hay = filler * g.rng.choice([0, 1, 17, 40]) + b"".join(u + filler * g.rng.choice([1, 3, 20]) for u in units)
+        mk = g.rng.choice(["std", "lf", "ll"])
+        kv = {"mk": mk, "pats": hxlist(pats), "hay": hx(hay), "cfgs": cfgs(cf)}
+        reqs.append(fmt_req(g.rng.choice(["find", "iter", "iter"]), kv))
+        kp = dict(kv); kp["s"] = 0; kp["e"] = len(hay); kp["cfgs"] = cfgs(["nc.d.1.1.b", "dfa.d.1.1.u"])
+        reqs.append(fmt_req("pre", kp))
+    reqs += _many_dup_packed(g, qn(q, 30, 300), cf)
+    reqs += _packed_tail_sweep(g, qn(q, 50, 500), ["find", "iter"], cf)
+    # case-insensitive searchers and the prefilters that compare bytes exactly (memmem for a single pattern; start bytes /
+    # rare bytes with their case twins): 1..3 patterns in upper, lower and mixed case with digits / punctuation, haystacks
+    # spelling them in every other case
+    for _ in range(qn(q, 80, 800)):
+        style = g.rng.choice(["upper", "lower", "mixed"])
+        def word():
+            w = g.word(b"abxyz", 1, 4) + g.rng.choice([b"", b"-", b"1", b"_d"])
+            if style == "upper":
+                return w.upper()
+            if style == "mixed":
+                return bytes((c ^ 0x20) if 97 <= c <= 122 and g.rng.random() < 0.5 else c for c in w)
+            return w
+        pats = list(dict.fromkeys(word() for _ in range(g.rng.choice([1, 1, 1, 2, 3]))))
+        def respell(w):
+            return bytes((c ^ 0x20) if (65 <= c <= 90 or 97 <= c <= 122) and g.rng.random() < 0.6 else c for c in w)
+        units = [respell(g.rng.choice(pats)) for _ in range(g.rng.randint(1, 4))] + [g.rng.choice(pats)]
+        g.rng.shuffle(units)
+        hay = b"".join(u + b"." * g.rng.choice([0, 1, 3, 20]) for u in units)
+        mk = g.rng.choice(["std", "lf", "ll"])
+        kv = {"mk": mk, "pats": hxlist(pats), "hay": hx(hay), "cfgs": cfgs(cf)}
+        if g.rng.random() < 0.8:
+            kv["fold"] = 1
+        reqs.append(fmt_req(g.rng.choice(["find", "iter", "iter"]), kv))
+        kp = dict(kv); kp["s"] = 0; kp["e"] = len(hay); kp["cfgs"] = cfgs(["nc.d.1.1.b", "dfa.d.1.1.u"])
+        reqs.append(fmt_req("pre", kp))
     # the prefilters themselves: variant chosen + candidate for a span, against the L3 model
     pcf = ["nc.d.1.1.b", "c.d.1.1.b", "dfa.d.1.1.u"]
     for _ in range(qn(q, 300, 4000)):
@@ -1125,7 +1245,11 @@ def gen_C06(tier, seed):
                     # vector window's leading lanes stand for positions before the span)
                     kv2 = dict(kv); kv2["s"] = pos + 1; kv2["e"] = n
                     reqs.append(fmt_req("packed", kv2))
-    reqs.append(fmt_req("packed", {"mk": "lf", "pats": hxlist([b"ab", b""]), "hay": hx(b"xab"), "pcfg": "default;rk"}))
+    # the empty pattern anywhere in the list (and more patterns than the builder accepts): no searcher at all, never a
+    # searcher of the remaining patterns
+    for pats in ([b"ab", b""], [b"", b"ab"], [b"ab", b"", b"cd"], [b"", b"ab", b"cd", b"xab"], [b""], [b"a", b"b", b""]):
+        for mk in ("lf", "ll"):
+            reqs.append(fmt_req("packed", {"mk": mk, "pats": hxlist(pats), "hay": hx(b"xabcdxxxxxxxxxxxxxxxxxxxxxab"), "pcfg": "default;rk;teddy"}))
     return {"reqs": reqs, "certs": [], "gen": g, "needs_cpu": True}
 
 
@@ -1350,9 +1474,12 @@ def gen_C13(tier, seed):
             for anch in (0, 1):
                 for noempty, withempty in lists:
                     for pats in (noempty, withempty):
-                        low = ["nc.d.1.0.b", "c.d.1.0.b", "dfa.d.1.0.u", "dfa.d.1.0.a", "dfa.d.1.0.b"]
-                        for span in (None, (3, 2)):
-                            kv = {"api": api, "mk": mk, "pats": hxlist(pats), "hay": hx(b"xabx"), "cfgs": cfgs(low)}
+                        # (also WITH a prefilter, and on haystacks where the prefilter finds no candidate / confirms a match by
+                        # itself: whether a search is rejected must not depend on what a prefilter says about the input)
+                        low = ["nc.d.1.0.b", "c.d.1.0.b", "dfa.d.1.0.u", "dfa.d.1.0.a", "dfa.d.1.0.b",
+                               "dfa.d.1.1.u", "dfa.d.1.1.a", "dfa.d.1.1.b", "nc.d.1.1.b", "c.d.1.1.b"]
+                        for hay, span in ((b"xabx", None), (b"xabx", (3, 2)), (b"zzzzzz", None), (b"", None), (b"zzzx", (0, 3))):
+                            kv = {"api": api, "mk": mk, "pats": hxlist(pats), "hay": hx(hay), "cfgs": cfgs(low)}
                             if span:
                                 kv["s"], kv["e"] = span
                             if anch:
@@ -1568,6 +1695,24 @@ def custom_C17(run, chk):
         hays = [probe, dense, sparse, dense[: len(dense) // 2]]
         kv = {"mk": g.rng.choice(["lf", "ll"]), "pats": hxlist(pats), "hays": "|".join(hx(h) for h in hays), "threads": 8,
               "reps": (4 if q else 12), "seed": g.rng.randint(1, 10 ** 6), "cfgs": cfgs(["auto.d.1.1.u", "nc.d.1.1.b", "tdfa.d.1.1.u"])}
+        reqs.append(fmt_req("threads", kv))
+    # a Teddy bucket with three or more patterns that share their fingerprint (a word, a proper prefix of it, another
+    # extension of the prefix): the probe holds the WORD, the history holds only the prefix / the other extension, each on a
+    # haystack long enough for the vector code; any per-bucket memory of "what matched last" shows as before != after
+    for _ in range(qn(q, 12, 120)):
+        stem = g.word(b"abcdefgh", 2, 4)
+        word = stem + g.word(b"abcdefgh", 2, 3)
+        ext2 = stem + g.word(b"ijklmnop", 2, 3)
+        others = [bytes([c]) + g.word(b"abcdefgh", len(stem), 4) for c in g.rng.sample(list(b"qrstuvwxy"), g.rng.randint(3, 5))]
+        trio = [word, stem, ext2] if g.rng.random() < 0.5 else [stem, word, ext2]
+        pats = trio + others
+        if g.rng.random() < 0.3:
+            g.rng.shuffle(pats)
+        pad = b"-" * g.rng.choice([20, 40, 70])
+        probe = pad + word + pad
+        hays = [probe, pad + stem + b"-" + pad, pad + ext2 + pad, pad + stem + pad + ext2 + pad + stem, probe + word]
+        kv = {"mk": g.rng.choice(["lf", "ll"]), "pats": hxlist(pats), "hays": "|".join(hx(h) for h in hays), "threads": 8,
+              "reps": (4 if q else 12), "seed": g.rng.randint(1, 10 ** 6), "cfgs": cfgs(["auto.d.1.1.u", "nc.d.1.1.b", "tdfa.d.1.1.u", "tc.d.1.1.b"])}
         reqs.append(fmt_req("threads", kv))
     impl, model, mism = vlib.diff(reqs, "C17")
     run.cov.update({"evaluations": len(impl), "requests": len(reqs),
